@@ -64,6 +64,7 @@ type Prog struct {
 	bce         *BCE
 	units       map[*ssa.Function]map[*ssa.Function]bool
 	renamedKnown map[string]map[*ssa.Function]bool // per package: known functions found under a new name
+	fnCache      map[string]*ssa.Function
 }
 
 func loadEnv(cfg Config) []string {
@@ -172,6 +173,7 @@ func Load(repo string, cfg Config) (*Prog, error) {
 	p.indexCG()
 	p.checkNoReflectUnsafe()
 	p.LoadS = time.Since(t0).Seconds()
+	curProg = p
 	return p, nil
 }
 
